@@ -292,6 +292,16 @@ theorem filterIn_on_bytes (RE : RelEnv E c) {bs : BStore} (hC : CanonS E bs) (mi
 
 -- ------------------------------------------------------------------ filterTx
 
+/-- simulation through a bind -/
+theorem bind_sim {α β α' β' : Type} (x : M α) (y : M α') (k : α → M β) (k' : α' → M β') (ga : α → α') (gb : β → β')
+    (P : α → Prop) (Qr : β → Prop) (h1 : x.map ga = y) (h1' : ∀ a, x = .ok a → P a)
+    (h2 : ∀ a, P a → (k a).map gb = k' (ga a) ∧ ∀ b, k a = .ok b → Qr b) :
+    (x >>= k).map gb = (y >>= k') ∧ ∀ b, (x >>= k) = .ok b → Qr b := by
+  subst h1
+  cases x with
+  | error e => exact ⟨rfl, fun b h => by cases h⟩
+  | ok a => exact h2 a (h1' a rfl)
+
 /-- `foldIdx_sim` with a fact about the elements -/
 theorem foldIdx_simQ {α αB β βB : Type} (absF : βB → β) (P : βB → Prop) (fB : βB → Nat → αB → βB) (f : β → Nat → α → β)
     (g : αB → α) (Q : αB → Prop) (B : Nat)
@@ -317,63 +327,79 @@ def filterTxRelB (RE : RelEnv E c) (bs : BStore) (tx : TxB) (loc : TxLocB) (mine
   else if f.hbIn && f.hbOut then throw .bothBinding
   else pure (some f)
 
+/-- filterTx after the TxIn loop: the TxOut loop, the relevance test, the binding-in-and-out test -/
+theorem filterFinish_on_bytes (RE : RelEnv E c) (ready : List Bytes) {tx : TxB} (hw : tx.WF) (hfit : OutsFit tx)
+    {loc : TxLocB} {f1 : FRecB} (hf1 : f1.Inv E tx loc) :
+    ((if ((foldIdx (filterOutB RE ready) tx.outs 0 f1).relIn.isEmpty
+          && (foldIdx (filterOutB RE ready) tx.outs 0 f1).relOut.isEmpty) = true then pure none
+      else if ((foldIdx (filterOutB RE ready) tx.outs 0 f1).hbIn
+          && (foldIdx (filterOutB RE ready) tx.outs 0 f1).hbOut) = true then throw Err.bothBinding
+      else pure (some (foldIdx (filterOutB RE ready) tx.outs 0 f1)) : M (Option FRecB)).map
+        (fun r => r.map (FRecB.nm0 E.N))
+      = (if ((foldIdx (filterOut c (ready.map E.N.wal)) (tx.outs.map (OutB.nm E.N)) 0 (f1.nm0 E.N)).relIn.isEmpty
+          && (foldIdx (filterOut c (ready.map E.N.wal)) (tx.outs.map (OutB.nm E.N)) 0 (f1.nm0 E.N)).relOut.isEmpty) = true
+          then pure none
+        else if ((foldIdx (filterOut c (ready.map E.N.wal)) (tx.outs.map (OutB.nm E.N)) 0 (f1.nm0 E.N)).hasBindingIn
+          && (foldIdx (filterOut c (ready.map E.N.wal)) (tx.outs.map (OutB.nm E.N)) 0 (f1.nm0 E.N)).hasBindingOut) = true
+          then throw Err.bothBinding
+        else pure (some (foldIdx (filterOut c (ready.map E.N.wal)) (tx.outs.map (OutB.nm E.N)) 0 (f1.nm0 E.N))))) ∧
+    ∀ r, (if ((foldIdx (filterOutB RE ready) tx.outs 0 f1).relIn.isEmpty
+          && (foldIdx (filterOutB RE ready) tx.outs 0 f1).relOut.isEmpty) = true then pure none
+      else if ((foldIdx (filterOutB RE ready) tx.outs 0 f1).hbIn
+          && (foldIdx (filterOutB RE ready) tx.outs 0 f1).hbOut) = true then throw Err.bothBinding
+      else pure (some (foldIdx (filterOutB RE ready) tx.outs 0 f1)) : M (Option FRecB)) = .ok r →
+      ∀ f, r = some f → f.Inv E tx loc := by
+  obtain ⟨o1, o2⟩ := foldIdx_simQ (FRecB.nm0 E.N) (FRecB.Inv E tx loc) (filterOutB RE ready)
+    (filterOut c (ready.map E.N.wal)) (OutB.nm E.N) (fun o => o.amt ≤ maxAmount) (256 ^ 4)
+    (fun b i a hb ha hi => filterOut_on_bytes RE ready hb hi ha)
+    tx.outs 0 f1 hf1 hfit (by simpa using hw.nOuts)
+  rw [← o1]
+  generalize foldIdx (filterOutB RE ready) tx.outs 0 f1 = g at o2 ⊢
+  have e1 : (g.nm0 E.N).relIn.isEmpty = g.relIn.isEmpty := by simp [FRecB.nm0]
+  have e2 : (g.nm0 E.N).relOut.isEmpty = g.relOut.isEmpty := by simp [FRecB.nm0]
+  have e3 : (g.nm0 E.N).hasBindingIn = g.hbIn := rfl
+  have e4 : (g.nm0 E.N).hasBindingOut = g.hbOut := rfl
+  rw [e1, e2, e3, e4]
+  by_cases c1 : (g.relIn.isEmpty && g.relOut.isEmpty) = true
+  · simp only [c1, if_true]
+    exact ⟨rfl, fun r e f ef => by cases e; cases ef⟩
+  · simp only [c1, Bool.false_eq_true, if_false]
+    by_cases c2 : (g.hbIn && g.hbOut) = true
+    · simp only [c2, if_true]
+      exact ⟨rfl, fun r e => by cases e⟩
+    · simp only [c2, Bool.false_eq_true, if_false]
+      exact ⟨rfl, fun r e f ef => by cases e; cases ef; exact o2⟩
+
 theorem filterTxRel_on_bytes (RE : RelEnv E c) {bs : BStore} (hC : CanonS E bs) (mined : Bool) {inBlk : List TxB}
     (hin : ∀ t ∈ inBlk, OutsFit t) (ready : List Bytes) {tx : TxB} (hw : tx.WF) (hfit : OutsFit tx) (loc : TxLocB) :
     (filterTxRelB RE bs tx loc mined inBlk ready).map (fun r => r.map (FRecB.nm0 E.N))
       = filterTxRel c (absStore E bs) (tx.nm E.N) mined (inBlk.map (TxB.nm E.N)) (ready.map E.N.wal) ∧
-    ∀ f, filterTxRelB RE bs tx loc mined inBlk ready = .ok (some f) → f.Inv E tx loc := by
+    ∀ r, filterTxRelB RE bs tx loc mined inBlk ready = .ok r → ∀ f, r = some f → f.Inv E tx loc := by
   unfold filterTxRelB filterTxRel
   have hcb : (tx.nm E.N).cb = tx.cb := rfl
   have hins : (tx.nm E.N).ins = tx.ins.map (InB.nm E.N) := rfl
   have houts : (tx.nm E.N).outs = tx.outs.map (OutB.nm E.N) := rfl
   have h0 : ({ tx := tx.nm E.N } : TxRec) = (({ tx := tx, loc := loc } : FRecB)).nm0 E.N := rfl
   have hinv0 : FRecB.Inv E tx loc { tx := tx, loc := loc } :=
-    ⟨rfl, rfl, fun _ h => by cases h, fun _ h => by cases h⟩
+    ⟨rfl, rfl, (fun _ h => by cases h), (fun _ h => by cases h)⟩
   rw [hcb, hins, houts, h0]
-  have stage1 : (if tx.cb = true then (pure { tx := tx, loc := loc } : M FRecB)
-        else foldIdxM (filterInB RE bs mined inBlk ready) tx.ins 0 { tx := tx, loc := loc }).map (FRecB.nm0 E.N)
-      = (if tx.cb = true then pure (({ tx := tx, loc := loc } : FRecB).nm0 E.N)
-        else foldIdxM (filterIn c (absStore E bs) mined (inBlk.map (TxB.nm E.N)) (ready.map E.N.wal))
-          (tx.ins.map (InB.nm E.N)) 0 (({ tx := tx, loc := loc } : FRecB).nm0 E.N)) ∧
-      ∀ f, (if tx.cb = true then (pure { tx := tx, loc := loc } : M FRecB)
-        else foldIdxM (filterInB RE bs mined inBlk ready) tx.ins 0 { tx := tx, loc := loc }) = .ok f → f.Inv E tx loc := by
-    by_cases hc : tx.cb = true
-    · simp only [hc, if_true]
-      exact ⟨rfl, fun f e => by cases e; exact hinv0⟩
-    · simp only [hc, Bool.false_eq_true, if_false]
-      exact foldIdxM_sim (FRecB.nm0 E.N) (FRecB.Inv E tx loc) (filterInB RE bs mined inBlk ready)
-        (filterIn c (absStore E bs) mined (inBlk.map (TxB.nm E.N)) (ready.map E.N.wal)) (InB.nm E.N)
-        (fun i => i.hash.length = 32) (256 ^ 4)
-        (fun b i a hb ha hi => filterIn_on_bytes RE hC mined hin ready hb hi ha)
-        tx.ins 0 _ hinv0 (fun i hi => (hw.ins i hi).1) (by simpa using hw.nIns)
-  obtain ⟨s1, s2⟩ := stage1
-  simp only [bind, Except.bind]
-  rw [← s1]
-  cases hx : (if tx.cb = true then (pure { tx := tx, loc := loc } : M FRecB)
-        else foldIdxM (filterInB RE bs mined inBlk ready) tx.ins 0 { tx := tx, loc := loc }) with
-  | error e => exact ⟨rfl, fun f e => by cases e⟩
-  | ok f1 =>
-    simp only [Except.map]
-    obtain ⟨o1, o2⟩ := foldIdx_simQ (FRecB.nm0 E.N) (FRecB.Inv E tx loc) (filterOutB RE ready)
-      (filterOut c (ready.map E.N.wal)) (OutB.nm E.N) (fun o => o.amt ≤ maxAmount) (256 ^ 4)
-      (fun b i a hb ha hi => filterOut_on_bytes RE ready hb hi ha)
-      tx.outs 0 f1 (s2 f1 hx) hfit (by simpa using hw.nOuts)
-    rw [← o1]
-    generalize foldIdx (filterOutB RE ready) tx.outs 0 f1 = g at o2 ⊢
-    have e1 : (g.nm0 E.N).relIn.isEmpty = g.relIn.isEmpty := by simp [FRecB.nm0]
-    have e2 : (g.nm0 E.N).relOut.isEmpty = g.relOut.isEmpty := by simp [FRecB.nm0]
-    have e3 : (g.nm0 E.N).hasBindingIn = g.hbIn := rfl
-    have e4 : (g.nm0 E.N).hasBindingOut = g.hbOut := rfl
-    rw [e1, e2, e3, e4]
-    by_cases c1 : (g.relIn.isEmpty && g.relOut.isEmpty) = true
-    · simp only [c1, if_true]
-      exact ⟨rfl, fun f e => by cases e⟩
-    · simp only [c1, Bool.false_eq_true, if_false]
-      by_cases c2 : (g.hbIn && g.hbOut) = true
-      · simp only [c2, if_true]
-        exact ⟨rfl, fun f e => by cases e⟩
-      · simp only [c2, Bool.false_eq_true, if_false]
-        exact ⟨rfl, fun f e => by cases e; exact o2⟩
+  by_cases hc : tx.cb = true
+  · simp only [hc, if_true]
+    refine bind_sim _ _ _ _ (FRecB.nm0 E.N) (fun r => r.map (FRecB.nm0 E.N)) (FRecB.Inv E tx loc)
+      (fun r => ∀ f, r = some f → f.Inv E tx loc) rfl ?_ ?_
+    · intro f e; cases e; exact hinv0
+    intro f1 hf1
+    exact filterFinish_on_bytes RE ready hw hfit hf1
+  · simp only [hc, Bool.false_eq_true, if_false]
+    obtain ⟨s1, s2⟩ := foldIdxM_sim (FRecB.nm0 E.N) (FRecB.Inv E tx loc) (filterInB RE bs mined inBlk ready)
+      (filterIn c (absStore E bs) mined (inBlk.map (TxB.nm E.N)) (ready.map E.N.wal)) (InB.nm E.N)
+      (fun i => i.hash.length = 32) (256 ^ 4)
+      (fun b i a hb ha hi => filterIn_on_bytes RE hC mined hin ready hb hi ha)
+      tx.ins 0 _ hinv0 (fun i hi => (hw.ins i hi).1) (by simpa using hw.nIns)
+    refine bind_sim _ _ _ _ (FRecB.nm0 E.N) (fun r => r.map (FRecB.nm0 E.N)) (FRecB.Inv E tx loc)
+      (fun r => ∀ f, r = some f → f.Inv E tx loc) s1 s2 ?_
+    intro f1 hf1
+    exact filterFinish_on_bytes RE ready hw hfit hf1
 
 -- ------------------------------------------------------------------ filterBlock's first loop
 
@@ -395,7 +421,51 @@ theorem filterTxs_on_bytes_gen (RE : RelEnv E c) {bs : BStore} (hC : CanonS E bs
         = filterTxs c (absStore E bs) (ready.map E.N.wal) b.id (l.map (TxB.nm E.N)) (seen.map (TxB.nm E.N)) ti
             (acc.map (FRecB.nm E)) ∧
       ∀ r, filterTxsB RE bs ready b l seen ti acc = .ok r → ∀ f ∈ r, f.Good E := by
-  sorry
+  intro l
+  induction l with
+  | nil => intro seen ti acc _ _ _ hacc; exact ⟨rfl, fun r e => by cases e; exact hacc⟩
+  | cons tx rest ih =>
+    intro seen ti acc hl hs hloc hacc
+    have htx := hl tx List.mem_cons_self
+    have hseen : ∀ t ∈ seen ++ [tx], OutsFit t := by
+      intro t ht
+      rcases List.mem_append.1 ht with h | h
+      · exact hs t h
+      · rw [List.mem_singleton.1 h]; exact htx.2
+    obtain ⟨r1, r2⟩ := filterTxRel_on_bytes RE hC true hseen ready htx.1 htx.2 (RE.locB b ti)
+    have hsm : seen.map (TxB.nm E.N) ++ [tx.nm E.N] = (seen ++ [tx]).map (TxB.nm E.N) := by simp
+    have hrest : ∀ t ∈ rest, t.WF ∧ OutsFit t := fun t ht => hl t (List.mem_cons_of_mem _ ht)
+    have hloc' : ∀ j, j < rest.length → (RE.locB b (ti + 1 + j)).WF = true ∧
+        E.loc (RE.locB b (ti + 1 + j)) = (b.id, ti + 1 + j) := by
+      intro j hj
+      have := hloc (j + 1) (by simp; omega)
+      have e : ti + (j + 1) = ti + 1 + j := by omega
+      rw [e] at this
+      exact this
+    simp only [filterTxsB, filterTxs, List.map_cons]
+    rw [hsm, ← r1]
+    cases hx : filterTxRelB RE bs tx (RE.locB b ti) true (seen ++ [tx]) ready with
+    | error e => exact ⟨rfl, fun r e => by cases e⟩
+    | ok o =>
+      cases o with
+      | none => exact ih (seen ++ [tx]) (ti + 1) acc hrest hseen hloc' hacc
+      | some f =>
+        have hinv := r2 _ hx f rfl
+        have hl0 : (RE.locB b ti).WF = true ∧ E.loc (RE.locB b ti) = (b.id, ti) := hloc 0 (by simp)
+        have hgood : f.Good E := ⟨by rw [hinv.tx]; exact htx.1, hinv.relIn, hinv.relOut, by rw [hinv.loc]; exact hl0.1⟩
+        have hnm : ({ f.nm0 E.N with loc := (b.id, ti) } : TxRec) = f.nm E := by
+          unfold FRecB.nm; rw [hinv.loc, hl0.2]
+        have hacc' : ∀ g ∈ acc ++ [f], g.Good E := by
+          intro g hg
+          rcases List.mem_append.1 hg with h | h
+          · exact hacc g h
+          · rw [List.mem_singleton.1 h]; exact hgood
+        have := ih (seen ++ [tx]) (ti + 1) (acc ++ [f]) hrest hseen hloc' hacc'
+        have hm : (acc ++ [f]).map (FRecB.nm E)
+            = acc.map (FRecB.nm E) ++ [({ f.nm0 E.N with loc := (b.id, ti) } : TxRec)] := by
+          rw [List.map_append, hnm]; rfl
+        rw [hm] at this
+        exact this
 
 /-- **filterBlock's relevance computation on bytes** -/
 theorem filterTxs_on_bytes (RE : RelEnv E c) {bs : BStore} (hC : CanonS E bs) (ready : List Bytes) {b : Block}
@@ -403,7 +473,11 @@ theorem filterTxs_on_bytes (RE : RelEnv E c) {bs : BStore} (hC : CanonS E bs) (r
     (filterTxsB RE bs ready b (RE.txsB b) [] 0 []).map (fun r => r.map (FRecB.nm E))
       = filterTxs c (absStore E bs) (ready.map E.N.wal) b.id b.txs [] 0 [] ∧
     ∀ r, filterTxsB RE bs ready b (RE.txsB b) [] 0 [] = .ok r → ∀ f ∈ r, f.Good E := by
-  sorry
+  have hlen : b.txs.length = (RE.txsB b).length := by rw [RE.txs_sim b hd, List.length_map]
+  have := filterTxs_on_bytes_gen RE hC ready b (RE.txsB b) [] 0 [] (RE.txs_wf b hd) (fun _ h => by cases h)
+    (fun j hj => by rw [Nat.zero_add]; exact RE.loc_sim b j hd (by omega)) (fun _ h => by cases h)
+  rw [RE.txs_sim b hd]
+  exact this
 
 -- ------------------------------------------------------------------ the irrelevant transactions
 
@@ -414,10 +488,106 @@ def unrelB (txs : List TxB) (relHashes : List Bytes) : List TxB :=
 def insPairOf (N : Names) (t : TxB) : InsPair := (t.ins.map (fun i => ⟨i.hash, i.index⟩), t.nm N)
 
 theorem insPairOf_ok {t : TxB} (h : t.WF) : (insPairOf E.N t).OK E := by
-  sorry
+  refine ⟨?_, ?_⟩
+  · intro o ho
+    simp only [insPairOf, List.mem_map] at ho
+    obtain ⟨i, hi, rfl⟩ := ho
+    exact outPoint_wf_mk (h.ins i hi).1 (h.ins i hi).2
+  · simp only [insPairOf, TxB.nm, List.map_map]
+    rfl
+
+theorem contains_hash (N : Names) (l : List RecPair) (hl : ∀ pr ∈ l, pr.2.tx.id = N.tx pr.1.hash) (h : Bytes) :
+    (l.map Prod.snd).any (fun tr => tr.tx.id = N.tx h) = (l.map (·.1.hash)).contains h := by
+  induction l with
+  | nil => rfl
+  | cons a l ih =>
+    simp only [List.map_cons, List.any_cons, List.contains_cons]
+    rw [ih (fun pr hp => hl pr (List.mem_cons_of_mem _ hp)), hl a List.mem_cons_self]
+    congr 1
+    by_cases e : h = a.1.hash
+    · simp [e]
+    · have : N.tx a.1.hash ≠ N.tx h := fun x => e (N.tx_inj _ _ x).symm
+      simp [e, this]
 
 theorem unrelB_sim (N : Names) (txs : List TxB) (l : List RecPair) (hl : ∀ pr ∈ l, pr.2.tx.id = N.tx pr.1.hash) :
     (unrelB txs (l.map (·.1.hash))).map (TxB.nm N) = unrelatedTxs (txs.map (TxB.nm N)) (l.map Prod.snd) := by
-  sorry
+  unfold unrelB unrelatedTxs
+  rw [List.filter_map]
+  congr 1
+  apply List.filter_congr
+  intro t _
+  simp only [Function.comp]
+  have hcb : (t.nm N).cb = t.cb := rfl
+  have hid : (t.nm N).id = N.tx t.hash := rfl
+  rw [hcb, hid, contains_hash N l hl]
+
+-- ------------------------------------------------------------------ the oracle of filterBlock
+
+/-- the irrelevant transactions of the block with their model readings.  On a list of records whose two halves carry the
+    same transaction (as every list `filterTxsB` returns does) this is `unrelB` on the records' hashes; `RelOracle.unrel_sim`
+    is stated for every list, hence the other branch (same filter, read through the naming) -/
+def unrelPairs (RE : RelEnv E c) (b : Block) (l : List RecPair) : List InsPair :=
+  if ∀ pr ∈ l, pr.2.tx.id = E.N.tx pr.1.hash then (unrelB (RE.txsB b) (l.map (·.1.hash))).map (insPairOf E.N)
+  else ((RE.txsB b).filter (fun t => !t.cb && !l.any (fun pr => pr.2.tx.id = E.N.tx t.hash))).map (insPairOf E.N)
+
+theorem unrelPairs_of_ok (RE : RelEnv E c) (b : Block) {l : List RecPair} (hl : ∀ pr ∈ l, pr.OK E) :
+    unrelPairs RE b l = (unrelB (RE.txsB b) (l.map (·.1.hash))).map (insPairOf E.N) := by
+  unfold unrelPairs
+  rw [if_pos (fun pr hp => (hl pr hp).2.id)]
+
+theorem unrelPairs_sim (RE : RelEnv E c) {b : Block} (hd : RE.dom b) (l : List RecPair) :
+    (unrelPairs RE b l).map Prod.snd = unrelatedTxs b.txs (l.map Prod.snd) := by
+  have hsnd : ∀ ts : List TxB, (ts.map (insPairOf E.N)).map Prod.snd = ts.map (TxB.nm E.N) := by
+    intro ts; rw [List.map_map]; rfl
+  unfold unrelPairs
+  rw [RE.txs_sim b hd]
+  by_cases hl : ∀ pr ∈ l, pr.2.tx.id = E.N.tx pr.1.hash
+  · rw [if_pos hl, hsnd]
+    exact unrelB_sim E.N _ l hl
+  · rw [if_neg hl, hsnd]
+    unfold unrelatedTxs
+    rw [List.filter_map]
+    congr 1
+    apply List.filter_congr
+    intro t _
+    simp only [Function.comp, List.any_map]
+    rfl
+
+theorem unrelPairs_ok (RE : RelEnv E c) {b : Block} (hd : RE.dom b) (l : List RecPair) :
+    ∀ pr ∈ unrelPairs RE b l, pr.OK E := by
+  intro pr hp
+  unfold unrelPairs at hp
+  split at hp
+  · obtain ⟨t, ht, rfl⟩ := List.mem_map.1 hp
+    exact insPairOf_ok ((RE.txs_wf b hd t (List.mem_filter.1 ht).1).1)
+  · obtain ⟨t, ht, rfl⟩ := List.mem_map.1 hp
+    exact insPairOf_ok ((RE.txs_wf b hd t (List.mem_filter.1 ht).1).1)
+
+/-- **the oracle of `filterBlockB` from the byte-level description of the node** -/
+def relOracleOf (RE : RelEnv E c) : RelOracle E c where
+  dom := RE.dom
+  rel bs ready b := (filterTxsB RE bs ready b (RE.txsB b) [] 0 []).map (fun r => r.map (FRecB.pair E))
+  unrel _ _ b l := unrelPairs RE b l
+  rel_sim bs ready b hd hC := by
+    rw [← (filterTxs_on_bytes RE hC ready hd).1]
+    cases filterTxsB RE bs ready b (RE.txsB b) [] 0 [] with
+    | error e => rfl
+    | ok r =>
+      show Except.ok _ = Except.ok _
+      congr 1
+      show List.map Prod.snd (List.map (FRecB.pair E) r) = List.map (FRecB.nm E) r
+      rw [List.map_map]
+      rfl
+  rel_ok bs ready b l hd hC h := by
+    cases hx : filterTxsB RE bs ready b (RE.txsB b) [] 0 [] with
+    | error e => rw [hx] at h; cases h
+    | ok r =>
+      rw [hx] at h
+      cases h
+      intro pr hp
+      obtain ⟨f, hf, rfl⟩ := List.mem_map.1 hp
+      exact FRecB.pair_ok ((filterTxs_on_bytes RE hC ready hd).2 r hx f hf)
+  unrel_sim _ _ b l hd := unrelPairs_sim RE hd l
+  unrel_ok _ _ b l hd := unrelPairs_ok RE hd l
 
 end MW.LedBytes
